@@ -27,10 +27,67 @@ let from_g6 (s : string) : int * bool array array =
   done;
   (n, a)
 
+(* ---------------------------------------------------------------- large graphs (level 2)
+   Case  #<n>:<a>-<b>.<a>-<b>...,2;<tokens>   (token K:<cy>.<icb>.<ipb> = NumberOfCycles called or
+   not, bounds of the two bounded counts, -9 = not called).  Everything printed comes from the
+   proved models of the Go functions (polynomial on these inputs); distances for a fixed
+   sample of pairs, ConnectedComponent for three vertices. *)
+let pairs n =
+  if n = 0 then [] else
+    let srcs = List.sort_uniq compare [0; n / 3; n - 1] in
+    let step = max 1 (n / 10) in
+    let rec ts t acc = if t >= n then acc else ts (t + step) (t :: acc) in
+    let tg = List.sort_uniq compare ((n - 1) :: ts 0 []) in
+    List.concat_map (fun s -> List.map (fun t -> (s, t)) tg) srcs
+let cvs n = if n = 0 then [] else [0; n / 2; n - 1]
+
+let big (line : string) : string =
+  let semi = String.rindex line ';' in
+  let head = String.sub line 0 semi in
+  let tail = String.sub line (semi + 1) (String.length line - semi - 1) in
+  let comma = String.rindex head ',' in
+  let spec = String.sub head 1 (comma - 1) in
+  let colon = String.index spec ':' in
+  let n = int_of_string (String.sub spec 0 colon) in
+  let es = String.sub spec (colon + 1) (String.length spec - colon - 1) in
+  let a = Array.make_matrix n n false in
+  let m = ref 0 in
+  List.iter (fun e -> if e <> "" then begin
+      let d = String.index e '-' in
+      let u = int_of_string (String.sub e 0 d) and v = int_of_string (String.sub e (d + 1) (String.length e - d - 1)) in
+      if not a.(u).(v) then incr m;
+      a.(u).(v) <- true; a.(v).(u) <- true end) (String.split_on_char '.' es);
+  let k = List.fold_left (fun acc t ->
+      if String.length t > 2 && t.[0] = 'K' && t.[1] = ':' then
+        List.map int_of_string (String.split_on_char '.' (String.sub t 2 (String.length t - 2))) else acc)
+      [0; 3; 2] (List.filter (fun t -> t <> "") (String.split_on_char ' ' tail)) in
+  let (cyf, icb, ipb) = match k with [c; i; p] -> (c, i, p) | _ -> (0, 3, 2) in
+  let nn = Array.init (n + 1) nat_of_int in
+  let adj u v = let i = int_of_nat u and j = int_of_nat v in i < n && j < n && a.(i).(j) in
+  let g = { gn = nn.(n); gadj = adj } in
+  let out f = function Done x -> f x | Panic -> "panic" | Fuel -> "fuel" in
+  let zi z = string_of_int (int_of_z z) in
+  let dp = String.concat "." (List.map (fun (s, t) -> out zi (distance_go g nn.(s) nn.(t))) (pairs n)) in
+  let ec = out (zs ".") (eccentricity_go g) in
+  let cc = out (fun cs -> lists (List.sort compare (List.map (List.map int_of_nat) cs))) (connected_components_go g) in
+  let cvp = lists (List.map (fun v -> match connected_component_go g nn.(v) with
+      | Done c -> List.map int_of_nat c | _ -> [-7]) (cvs n)) in
+  let (bl, ar) = match biconnected_components_go g with
+    | Done (bl, ar) -> (lists (List.sort compare (List.map (List.map int_of_nat) bl)),
+                        ints "." (List.sort compare (List.map int_of_nat ar)))
+    | _ -> ("panic", "panic") in
+  let cy = if cyf = 1 then out (nats ".") (number_of_cycles_go g) else "-" in
+  let ic = if icb = -9 then "-" else Printf.sprintf "%d:%s" icb (out (nats ".") (number_of_induced_cycles_go g (z_of_int icb))) in
+  let ip = if ipb = -9 then "-" else Printf.sprintf "%d:%s" ipb (out (nats ".") (number_of_induced_paths_go g (z_of_int ipb))) in
+  Printf.sprintf "n=%d m=%d Dp=%s ec=%s di=%s ra=%s cc=%s cvp=%s gm=%s bl=%s ar=%s cy=%s ic=%s ip=%s"
+    n !m dp ec (if n <= 70 then out zi (diameter_go g) else "-") (if n <= 70 then out zi (radius_go g) else "-")
+    cc cvp (out zi (girth_go g)) bl ar cy ic ip
+
 let () =
   try
     while true do
       let line = input_line stdin in
+      if String.length line > 0 && line.[0] = '#' then print_endline (big line) else begin
       let semi = String.rindex line ';' in
       let head = String.sub line 0 semi in
       let comma = String.rindex head ',' in
@@ -131,5 +188,6 @@ let () =
           (String.concat "/" (List.map (fun k -> nats "." (ipaths_bounded_ref g k)) bounds)))
       end;
       print_endline (Buffer.contents buf ^ " ## gi=" ^ gmodel)
+      end
     done
   with End_of_file -> ()
